@@ -28,7 +28,7 @@ md = "\n## 8. Seeded changes (independent sub-agents, one scratch worktree each,
  f"Round 4 (sub-agents were asked to prefer easily overlooked mechanisms: cached state, fleet mode, dry mode, several groups, auto-discovery, partial failures): {stats[4][1]} of {stats[4][0]} caught on first run, {stats[4][2]} after strengthening.  \n" \
  f"Round 5 (asked to prefer the last sentence / subordinate clauses of a statement, helper code and wiring, effects of the second or third scan, legal extremes): {stats[5][1]} of {stats[5][0]} caught on first run, {stats[5][2]} after strengthening.  \n" \
  f"Round 6 (sub-agents were told that a bounded checker with up to 3 nodes, 2 pods, 2 groups, 2 scans, single generic API failures and small option values guards the project, and asked to stay outside it: more objects or scans, specific error kinds, specific strings, large quantities, slowly accumulating state): {stats[6][1]} of {stats[6][0]} caught on first run, {stats[6][2]} after strengthening (C16-R6B is in the decoding path).  \n" \
- f"Round 7 (the prompt listed everything the checks explored by then and asked for something else: order of API answers, string-typed options, long time spans, three features at once, the two cloud code paths): {stats[7][1]} of {stats[7][0]} caught on first run, {stats[7][2]} after strengthening (two of them by another property's check); left: three failures of a particular pattern in one scan (C03-R7A), time-zone formatting (C08-R7A, unsupported by the time model and reported as such), a guard on the scan's wall-clock duration (C12-R7A).\n\n" \
+ f"Round 7 (the prompt listed everything the checks explored by then and asked for something else: order of API answers, string-typed options, long time spans, three features at once, the two cloud code paths): {stats[7][1]} of {stats[7][0]} caught on first run, {stats[7][2]} after strengthening (two of them by another property's check); left: time-zone formatting (C08-R7A, unsupported by the time model and reported as such), a guard on the scan's wall-clock duration (C12-R7A).\n\n" \
  "### Round 1\n\n"+hdr+"\n".join(rows[1])+"\n\n### Round 2\n\n"+hdr+"\n".join(rows[2])+"\n\n### Round 3\n\n"+hdr+"\n".join(rows[3])+"\n\n### Round 4\n\n"+hdr+"\n".join(rows[4])+"\n\n### Round 5\n\n"+hdr+"\n".join(rows[5])+"\n\n### Round 6\n\n"+hdr+"\n".join(rows[6])+"\n\n### Round 7\n\n"+hdr+"\n".join(rows[7])+"\n"
 s=open('/verif/DESIGN.md').read()
 i=s.find('\n## 8. Seeded changes')
